@@ -10,9 +10,26 @@ inductive Sx where
   | n (v : Nat)
   | s (name : String)
   | l (xs : List Sx)
-  deriving Repr, Inhabited, BEq
+  deriving Repr, Inhabited
 
 namespace Sx
+
+mutual
+/-- STRUCTURAL equality on the wire format (the derived `BEq` of a nested inductive is a `partial`,
+    hence opaque, definition about which nothing can be proved; this one is proved to be equality in
+    `Props/Oracles.lean`: `Sx.beq_iff`) -/
+def beq : Sx → Sx → Bool
+  | .n a, .n b => a == b
+  | .s a, .s b => a == b
+  | .l a, .l b => beqL a b
+  | _, _ => false
+def beqL : List Sx → List Sx → Bool
+  | [], [] => true
+  | a :: as, b :: bs => beq a b && beqL as bs
+  | _, _ => false
+end
+
+instance : BEq Sx := ⟨beq⟩
 
 partial def toStr : Sx → String
   | .n v => toString v
